@@ -134,3 +134,46 @@ func init() {
 		Outside: []string{"several messages in flight", "loss on the broker (TCP) side", "predefined topics (routing: C32)"},
 	})
 }
+
+func init() {
+	reg(&Spec{
+		ID: "C11", Pkgs: []string{"gateway", "util"}, LoopBound: 400,
+		Quick: func() []Inst {
+			var out []Inst
+			for k1 := int64(0); k1 <= 5; k1++ {
+				out = append(out, inst("gateway", "VH_C11_cycle", k1, -1, 0))
+				for k2 := int64(0); k2 <= 5; k2++ {
+					out = append(out, inst("gateway", "VH_C11_cycle", k1, k2, 0))
+				}
+			}
+			out = append(out, inst("gateway", "VH_C11_cycle", 0, -1, 1), inst("gateway", "VH_C11_cycle", 1, 0, 1))
+			return out
+		},
+		Asserts: []string{"C11.sleep_request_answered", "C11.nothing_sent_while_asleep", "C11.buffered_delivered_once_then_pingresp", "C11.buffered_in_original_order", "C11.followed_by_pingresp", "C11.asleep_again_after_pingresp"},
+		Reach:   []string{"C11.woke_up", "C11.second_cycle"},
+		Bounds: map[string]string{
+			"cycle":  "active client, DISCONNECT(duration symbolic > 0), then 1..2 broker events among PUBLISH QoS 0 short / QoS 1 registered / QoS 0 new topic (REGISTER) / QoS 2 short / PINGRESP / UNSUBACK with symbolic IDs, payload byte, retain; PINGREQ; oracle = a twin session that never slept and received the same events",
+			"second": "one more broker PUBLISH after the wake-up PINGRESP (second sleep cycle)",
+		},
+		Outside: []string{"a broker PUBLISH racing with the PINGREQ on the other receive goroutine (needs pre-emptive interleaving; pktBuffer is unsynchronised - see DESIGN.md)", "more than two buffered events"},
+	})
+}
+
+func init() {
+	reg(&Spec{
+		ID: "C12", Pkgs: []string{"gateway", "util"}, LoopBound: 4000, ValidateN: 3,
+		Quick: func() []Inst {
+			return []Inst{inst("gateway", "VH_C12_active", 2), inst("gateway", "VH_C12_sleep", 2, 1)}
+		},
+		Thor: func() []Inst {
+			return []Inst{inst("gateway", "VH_C12_active", 2), inst("gateway", "VH_C12_active", 5), inst("gateway", "VH_C12_sleep", 2, 1), inst("gateway", "VH_C12_sleep", 2, 2), inst("gateway", "VH_C12_sleep", 3, 2)}
+		},
+		Asserts: []string{"C12.gap_between_broker_packets", "C12.gap_until_end", "C12.pinger_period", "C12.pinger_keeps_pinging"},
+		Reach:   []string{"C12.history_done", "C12.active_done", "C12.pinger_ran"},
+		Bounds: map[string]string{
+			"session": "the real run() with real receive loops and the real sleep pinger in virtual time; keep-alive K = 2 s (thorough also 3 s / 5 s)",
+			"history": "active for a symbolic time < K, then 1..2 sleep cycles: DISCONNECT(d), d symbolic in 1..3K seconds, wake-up PINGREQ after a symbolic time <= d; or three keep-alive PINGREQs at symbolic intervals <= K while active",
+		},
+		Outside: []string{"longer histories; K outside the listed values; real-time slack"},
+	})
+}
